@@ -4,6 +4,9 @@ list operations do to it.
 -/
 import FDAModel.Containers
 import FDAProofs.Lemmas.Dict
+import Mathlib.Tactic.Linarith
+import Mathlib.Tactic.FieldSimp
+import Mathlib.Algebra.Order.Field.Basic
 
 namespace FDA.Containers
 open FDA.Dict FDA.Slice FDA.Select
@@ -672,6 +675,76 @@ theorem step_preserves (g : Bool) (P : Grid → Prop)
           | ok y =>
             rw [hm] at hs'; cases hs'
             exact ⟨fun c hc => hP c ((concatMulti_inv hm).1 c hc), (concatMulti_inv hm).2⟩
+
+/-! ### minimum / maximum by folding -/
+
+theorem foldl_pickMin_le (t : List ℚ) (a : ℚ) : t.foldl pickMin a ≤ a ∧ ∀ x ∈ t, t.foldl pickMin a ≤ x := by
+  induction t generalizing a with
+  | nil => simp
+  | cons b t ih =>
+    simp only [List.foldl_cons, List.mem_cons]
+    obtain ⟨h1, h2⟩ := ih (pickMin a b)
+    have hp : pickMin a b ≤ a ∧ pickMin a b ≤ b := by
+      unfold pickMin; split <;> constructor <;> linarith
+    refine ⟨le_trans h1 hp.1, ?_⟩
+    rintro x (rfl | hx)
+    · exact le_trans h1 hp.2
+    · exact h2 x hx
+
+theorem foldl_pickMin_mem (t : List ℚ) (a : ℚ) : t.foldl pickMin a ∈ a :: t := by
+  induction t generalizing a with
+  | nil => simp
+  | cons b t ih =>
+    simp only [List.foldl_cons]
+    have := ih (pickMin a b)
+    rcases List.mem_cons.1 this with h | h
+    · rw [h]; unfold pickMin; split <;> simp
+    · exact List.mem_cons_of_mem _ (List.mem_cons_of_mem _ h)
+
+theorem foldl_pickMax_ge (t : List ℚ) (a : ℚ) : a ≤ t.foldl pickMax a ∧ ∀ x ∈ t, x ≤ t.foldl pickMax a := by
+  induction t generalizing a with
+  | nil => simp
+  | cons b t ih =>
+    simp only [List.foldl_cons, List.mem_cons]
+    obtain ⟨h1, h2⟩ := ih (pickMax a b)
+    have hp : a ≤ pickMax a b ∧ b ≤ pickMax a b := by
+      unfold pickMax; split <;> constructor <;> linarith
+    refine ⟨le_trans hp.1 h1, ?_⟩
+    rintro x (rfl | hx)
+    · exact le_trans hp.2 h1
+    · exact h2 x hx
+
+theorem foldl_pickMax_mem (t : List ℚ) (a : ℚ) : t.foldl pickMax a ∈ a :: t := by
+  induction t generalizing a with
+  | nil => simp
+  | cons b t ih =>
+    simp only [List.foldl_cons]
+    have := ih (pickMax a b)
+    rcases List.mem_cons.1 this with h | h
+    · rw [h]; unfold pickMax; split <;> simp
+    · exact List.mem_cons_of_mem _ (List.mem_cons_of_mem _ h)
+
+/-- What `normalizeGrid` returns: the affine image under the true minimum and maximum. -/
+theorem normalizeGrid_spec {t s : List ℚ} (h : normalizeGrid t = some s) :
+    ∃ lo hi, lo ∈ t ∧ hi ∈ t ∧ lo < hi ∧ (∀ x ∈ t, lo ≤ x ∧ x ≤ hi) ∧ s = t.map fun x => (x - lo) / (hi - lo) := by
+  unfold normalizeGrid at h
+  cases t with
+  | nil => simp [listMin] at h
+  | cons a r =>
+    simp only [listMin, listMax] at h
+    split at h
+    · cases h
+    · rename_i hne
+      cases h
+      have hmin := foldl_pickMin_le r a
+      have hmax := foldl_pickMax_ge r a
+      refine ⟨_, _, foldl_pickMin_mem r a, foldl_pickMax_mem r a, ?_, ?_, rfl⟩
+      · have : r.foldl pickMin a ≤ r.foldl pickMax a := le_trans hmin.1 hmax.1
+        exact lt_of_le_of_ne this (fun e => hne e.symm)
+      · intro x hx
+        rcases List.mem_cons.1 hx with rfl | hx
+        · exact ⟨hmin.1, hmax.1⟩
+        · exact ⟨hmin.2 x hx, hmax.2 x hx⟩
 
 /-! ### The plain Python list the multivariate object is compared with -/
 
